@@ -98,3 +98,13 @@ impl MultiPattern {
         self.cols.iter().all(|(pat, _)| pat.atoms.is_empty())
     }
 }
+
+#[cfg(nucleo_verif)]
+pub(crate) mod verif_access {
+    //! verification harness access to the private column list (no behaviour of its own)
+    use super::{MultiPattern, Pattern, Status};
+    pub fn col_mut(p: &mut MultiPattern, column: usize) -> (&mut Pattern, &mut Status) {
+        let c = &mut p.cols[column];
+        (&mut c.0, &mut c.1)
+    }
+}
